@@ -172,6 +172,20 @@ func (g *Gen) fnEnv(st *State, results []Val) *Env {
 	for k, v := range g.params {
 		env.vars[k] = v
 	}
+	// a captured variable of a closure is passed as a pointer to its cell; in the closure's own contract its name
+	// denotes the variable's value, as it does in the source (name0: its value when the closure was entered)
+	for _, fv := range g.fn.FreeVars {
+		v, ok := g.params[fv.Name()]
+		if !ok || v.Addr == nil || v.Addr.Kind != "cell" {
+			continue
+		}
+		save := g.cur
+		env.vars[fv.Name()] = g.loadQuiet(st, v, v.Addr.ElemT)
+		if g.entry != nil {
+			env.vars[fv.Name()+"0"] = g.loadQuiet(g.entry, v, v.Addr.ElemT)
+		}
+		g.cur = save
+	}
 	if results != nil {
 		sig := g.fn.Signature
 		var names []string
